@@ -30,9 +30,20 @@ class Canon:
     def __init__(self):
         self.opaque = {}     # type name -> count (objects digested through their state)
         self.depth_hit = 0
+        self.memo = {}       # id -> (object kept alive, digest): data / as_dict() share their nested containers
 
     def d(self, x, depth=0) -> str:
         """canonical text of x (small), nested parts hashed"""
+        if isinstance(x, (dict, list)) or type(x).__name__ == "ndarray":
+            hit = self.memo.get(id(x))
+            if hit is not None and hit[0] is x:
+                return hit[1]
+            r = self._d(x, depth)
+            self.memo[id(x)] = (x, r)
+            return r
+        return self._d(x, depth)
+
+    def _d(self, x, depth=0) -> str:
         import numpy as np
         import datetime as _dt
         import pathlib
@@ -275,10 +286,14 @@ def run_ops(ops):
             p = inst.get(k)
             if p is not None:
                 n = 0
+                seen = set()
+                keep = []          # keep the copies alive so that ids in `seen` stay unique
                 for getter in (lambda: p.as_dict(), lambda: p.as_dict(include_meta=True), lambda: p.data, lambda: p.meta,
                                lambda: getattr(p, "header", None)):
                     try:
-                        n += mutate_deep(getter())
+                        got = getter()
+                        keep.append(got)
+                        n += mutate_deep(got, seen)
                     except Exception:
                         pass
         elif kind == "drop":
@@ -290,49 +305,94 @@ def run_ops(ops):
 
 
 # --------------------------------------------------------------------------------------- plug-in tables
-def plugin_tables():
+def plugin_tables(example_dir=None):
     """For parsers / writers / fieldtypes: the names the library lists and, per name, the facts
-    (module file exists, load succeeded, registered object is of the advertised kind)."""
+    (module file exists, load succeeded, kind of the registered object, parse_file's arguments bind)."""
     import importlib
     import inspect
     import pathlib
     out = {}
     kinds = {"midgard.parsers": "parser", "midgard.writers": "writer", "midgard.data.fieldtypes": "fieldtype"}
+    from midgard.dev import plugins
     for pkg, kind in kinds.items():
         rows = []
         err = None
+        pkgdir = None
         try:
             with quiet():
                 mod = importlib.import_module(pkg)
+                pkgdir = pathlib.Path(mod.__file__).parent
                 names = list(mod.names())
         except BaseException as e:  # noqa
-            names, err = [], f"{type(e).__name__}: {e}"
-        pkgdir = pathlib.Path(importlib.import_module(pkg).__file__).parent if err is None else None
-        # every public .py file of the package directory (what the library *should* list)
+            names, err = [], f"{type(e).__name__}: {str(e)[:300]}"
+        # every public .py file of the package directory
         files = sorted(f.stem for f in pkgdir.glob("*.py") if not f.stem.startswith("_")) if pkgdir else []
-        from midgard.dev import plugins
+        if err is not None:
+            names = files          # the listing itself failed: report per file what loads
         for n in names:
-            row = {"name": n, "file_exists": bool(pkgdir and (pkgdir / f"{n}.py").exists()), "loaded": False, "kind_ok": False,
-                   "detail": ""}
+            row = {"name": n, "file_exists": bool(pkgdir and (pkgdir / f"{n}.py").exists()), "loaded": False, "kind": 0,
+                   "call": 0, "detail": ""}
             try:
                 with quiet():
                     plug = plugins.get(pkg, n)
                 obj = plug.function
                 row["loaded"] = True
                 row["detail"] = f"{type(obj).__name__}:{getattr(obj, '__qualname__', '?')}"
+                in_module = getattr(obj, "__module__", "") == f"{pkg}.{n}"
                 if kind == "parser":
                     from midgard.parsers._parser import Parser
-                    row["kind_ok"] = inspect.isclass(obj) and issubclass(obj, Parser) and obj is not Parser
+                    if inspect.isclass(obj):
+                        row["kind"] = 1 if (issubclass(obj, Parser) and obj is not Parser and in_module) else 0
+                    elif inspect.isfunction(obj) and in_module and example_dir:
+                        # a dispatcher: must hand back a Parser for some RINEX example file
+                        for f in sorted(os.listdir(example_dir)):
+                            if "rinex" not in f:
+                                continue
+                            try:
+                                with quiet():
+                                    got = obj(file_path=os.path.join(example_dir, f))
+                            except BaseException:  # noqa
+                                continue
+                            if isinstance(got, Parser):
+                                row["kind"] = 2
+                                row["detail"] += f" -> {type(got).__name__} ({f})"
+                                break
+                    try:
+                        inspect.signature(obj).bind(file_path="x", encoding=None)
+                        row["call"] = 1
+                    except TypeError as e:
+                        row["detail"] += f" ; parse_file arguments do not bind: {e}"
                 elif kind == "writer":
-                    row["kind_ok"] = callable(obj) and not inspect.isclass(obj)
+                    row["kind"] = 1 if (inspect.isfunction(obj) and in_module) else 0
+                    row["call"] = 1
                 else:
                     from midgard.data.fieldtypes._fieldtype import FieldType
-                    row["kind_ok"] = inspect.isclass(obj) and issubclass(obj, FieldType) and obj is not FieldType
-                row["same_module"] = getattr(obj, "__module__", "") == f"{pkg}.{n}"
+                    row["kind"] = 1 if (inspect.isclass(obj) and issubclass(obj, FieldType) and obj is not FieldType
+                                        and in_module) else 0
+                    row["call"] = 1
             except BaseException as e:  # noqa
                 row["detail"] = f"{type(e).__name__}: {str(e)[:200]}"
             rows.append(row)
-        out[kind] = {"package": pkg, "names": names, "rows": rows, "error": err, "files": files}
+        out[kind] = {"package": pkg, "rows": rows, "error": err, "files": files,
+                     "unlisted_files": sorted(set(files) - set(names))}
+    return out
+
+
+def run_headers(job):
+    """parse the given files one after the other (new instance each, parsers.parse_file) and report
+    header['obs_types'] as insertion-ordered pairs, or the exception class"""
+    from midgard import parsers
+    out = []
+    for path in job["files"]:
+        try:
+            with quiet():
+                p = parsers.parse_file(job["parser"], path)
+            ot = p.header.get("obs_types", {})
+            out.append({"ok": [[k, list(v)] for k, v in ot.items()]})
+        except BaseException as e:  # noqa
+            if isinstance(e, KeyboardInterrupt):
+                raise
+            out.append({"exc": type(e).__name__})
     return out
 
 
@@ -345,8 +405,10 @@ def main():
         res = run_ops([dict(op="parse_file", i=0, parser=job["parser"], file=job["file"], args=job.get("args"))])[0]
     elif mode == "history":
         res = run_ops(job["ops"])
+    elif mode == "headers":
+        res = run_headers(job)
     elif mode == "plugins":
-        res = plugin_tables()
+        res = plugin_tables(job.get("example_dir"))
     else:
         raise SystemExit(2)
     sys.stdout.write("\n@@C16@@" + json.dumps(res) + "\n")
